@@ -19,3 +19,7 @@ NATIVE_COVERS = {"blockdims_from_blockshape": ["normalize_chunks"]}
 def native(tier, seed):
     from vf import chunks_native
     return [chunks_native.normalize_sweep(tier, seed), chunks_native.rechunk_sweep(tier, seed)]
+
+
+# thorough tier: deliberate edits that must turn an obligation red (applied to a scratch copy, never to /repo)
+MUTATIONS = [('contracts.chunks', 'blockdims_from_blockshape', 'dask/array/core.py', '((bd,) * (d // bd) + ((d % bd,) if d % bd else ()) if d else (0,))', '((bd,) * (d // bd) + ((d % bd,) if d % bd else (0,)) if d else (0,))')]
